@@ -1,8 +1,16 @@
 (* Properties_C06.v -- the property theorems, nothing else. *)
 From Coq Require Import List Arith Bool.
 Import ListNotations.
-From Heph Require Import Types.Syntax Types.Subst Types.Subtype Types.Decl Types.SubtypeSound.
+From Heph Require Import Types.Syntax Types.Subst Types.Subtype Types.Decl Types.TableOk Types.SubtypeSound.
 
 Theorem nothing_bottom : forall w f t, is_subtype w (S f) TNothing t = Rt.
 Proof. exact nothing_bottom_lem. Qed.
 Print Assumptions nothing_bottom.
+
+Theorem sub_ref_yes_sound : forall w fuel p s t, sub_ref w fuel p s t = Yes -> SubA w p s t.
+Proof. exact sub_ref_yes_sound_lem. Qed.
+Print Assumptions sub_ref_yes_sound.
+
+Theorem sub_ref_no_sound : forall w fuel p s t, sub_ref w fuel p s t = No -> ~ SubA w p s t.
+Proof. exact sub_ref_no_sound_lem. Qed.
+Print Assumptions sub_ref_no_sound.
